@@ -26,3 +26,11 @@ def _f6(case, failure):
     return (failure.clause, failure.sig) in {
         ('significant-tokens', 'str-eol-normalised'), ('significant-tokens', 'qname-eol-normalised'),
         ('relex', 'quoted-eol-normalised'), ('nf3-trailing-blank', 'line'), ('idempotent', 'eol-normalised')}
+
+
+@classifier('f5_bare_end_lowers_level')
+def _f5(case, failure):
+    """F5: outside CREATE a bare END (of a CASE expression, or the word END) lowers the split level although nothing
+    raised it, so a ';' inside a later parenthesis ends the statement.  The check tags such failures ':hazard' only when
+    the statement has an END before / inside a parenthesis body that contains ';'."""
+    return failure.clause in ('count', 'extent', 'cut-inside-lexeme') and failure.sig.endswith(':hazard')
